@@ -24,3 +24,4 @@ def rules(ctx):
     S.c07_rules(ctx)
     S.c11_rules(ctx)
     S.tracker_state_rules(ctx)
+    S.loop_completeness_rules(ctx)
